@@ -194,6 +194,19 @@ func (g *Gen) ObjectCase(name string, newMsg func() (interface{}, *fix.Message),
 	}
 	o.SerOk = true
 	o.Wire = ToB(wire)
+	// C02's precondition: a tag number occupies one position in the template (real FIX messages reuse components,
+	// e.g. Instrument in the body and in a group entry: those are serialization-only cases)
+	var all []string
+	tagsOf(tree.Header, &all)
+	tagsOf(tree.Body, &all)
+	tagsOf(tree.Trailer, &all)
+	seen := map[string]bool{tree.Tags.Bs.String(): true, tree.Tags.Bl.String(): true, tree.Tags.Mt.String(): true, tree.Tags.Cs.String(): true}
+	for _, tg := range all {
+		if seen[tg] {
+			return o, nil
+		}
+		seen[tg] = true
+	}
 	o.Parsed = true
 	for _, strict := range []bool{true, false} {
 		_, target := newMsg()
